@@ -481,9 +481,26 @@ func runECCLongHistories() {
 	// ONE worker runs all histories one after the other: whatever the function counts is
 	// package-level, and calls made by other workers in between would change the distance between
 	// the two requests
-	chk.Range(fmt.Sprintf("ErrorCorrection_EncodeECC200 LONG call histories (sequential, one worker): [first size][N calls with the smallest symbol and all-zero / all-0xFF data][second size], N in %v (counters and generation numbers wrap at 2^8 and 2^16), 5x5 size pairs (quick: half; %d histories): the last result equals the reference", ns, len(jobs)), 1,
+	chk.Range(fmt.Sprintf("ErrorCorrection_EncodeECC200 LONG call histories (sequential, one worker): [first size][N calls with the smallest symbol and all-zero / all-0xFF data][second size], N in %v (counters and generation numbers wrap at 2^8 and 2^16), 5x5 size pairs (quick: half; %d histories): the last result equals the reference; and for all 30 sizes the same request twice with the first result overwritten by the caller in between", ns, len(jobs)), 1,
 		func(i int) string { return "all long histories" },
 		func(l *mc.Local, _ int) {
+			// the SAME request twice in a row, the caller having scribbled over the first result in
+			// between (damage simulation on one's own copy): the second result is the reference again
+			for si, s := range dm.Symbols {
+				data := mk(s, 5)
+				name := fmt.Sprintf("[%v][the caller overwrites the returned codewords][%v with the same data]", s, s)
+				cs := rcase{Sub: "eccl", Rows: s.Rows, Cols: s.Cols, Vec: name, Index: si, N: si}
+				first, ok := libECC(l, s, data, cs)
+				if !ok {
+					return
+				}
+				for k := range first {
+					first[k] ^= byte(0x5a + k)
+				}
+				if !eccCompare(l, s, name, data, cs, true) {
+					return
+				}
+			}
 			for _, j := range jobs {
 				a, b := dm.Symbols[j.a%len(dm.Symbols)], dm.Symbols[j.b%len(dm.Symbols)]
 				name := fmt.Sprintf("long history [%v][%d x smallest symbol, data all %#02x][%v]", a, j.n, j.fill*255, b)
